@@ -59,18 +59,23 @@ theorem mainLoop_spec (cnf0 : CNF) (vars : List Nat) (nvars af : Nat) :
     (∀ a, mainLoop vars nvars af fuel s pr = .sat a → ∀ c ∈ cnf0, c.any (litTrue a) = true) ∧
     (∀ c' ps, mainLoop vars nvars af fuel s pr = .unsat c' ps →
       (¬ ∃ σ, Sat σ cnf0) ∧ checkTrace c' cnf0.length ps = true ∧ c'.take cnf0.length = cnf0 ∧
-      ∃ sh, rebuild cnf0 ps = some sh ∧ checkTrace sh cnf0.length ps = true) := by
+      ∃ sh, rebuild cnf0 ps = some sh ∧ checkTrace sh cnf0.length ps = true) ∧
+    (∀ e, mainLoop vars nvars af fuel s pr = .error e → e = .outOfFuel) := by
   intro fuel
   induction fuel with
-  | zero => intro s pr _ _; simp [mainLoop]
+  | zero =>
+    intro s pr _ _
+    refine ⟨by simp [mainLoop], by simp [mainLoop], ?_⟩
+    intro e h; simp only [mainLoop] at h; cases h; rfl
   | succ f ih =>
     intro s pr hinv hpr
     unfold mainLoop
     split
     · -- outOfFuel
-      simp
+      refine ⟨by simp, by simp, ?_⟩
+      intro e h; cases h; rfl
     · -- sat
-      refine ⟨?_, by simp⟩
+      refine ⟨?_, by simp, by simp⟩
       intro a ha c hc
       cases ha
       have hmem : c ∈ s.cnf := by
@@ -92,8 +97,12 @@ theorem mainLoop_spec (cnf0 : CNF) (vars : List Nat) (nvars af : Nat) :
       obtain ⟨c0, hc0, hf0⟩ := hpr
       simp only [hc0]
       split
-      · simp
+      · rename_i e' han
+        refine ⟨by simp, by simp, ?_⟩
+        intro e h; cases h
+        exact analyze_no_crash hinv.trail _ _ _ _ _ han hf0
       · rename_i proof clause orc' han
+        have hfin := analyze_allFalse hinv.trail _ _ _ _ _ _ _ han hf0
         have hcid : cid < s.cnf.length := (List.getElem?_eq_some_iff.mp hc0).1
         have hc0m : c0 ∈ s.cnf := List.mem_iff_getElem?.mpr ⟨cid, hc0⟩
         obtain ⟨hlt, hent, hrepAll⟩ := analyze_spec hinv.trail cnf0 hinv.ent af [cid] c0 s.orc
@@ -112,7 +121,7 @@ theorem mainLoop_spec (cnf0 : CNF) (vars : List Nat) (nvars af : Nat) :
         split
         · -- learned clause empty: unsatisfiable
           rename_i hemp
-          refine ⟨by simp, ?_⟩
+          refine ⟨by simp, ?_, by simp⟩
           intro c' ps h
           cases h
           have : clause = [] := by simpa using hemp
@@ -129,8 +138,11 @@ theorem mainLoop_spec (cnf0 : CNF) (vars : List Nat) (nvars af : Nat) :
             subst hr0
             have := rebuild_traceOK cnf0.length _ [] cnf0 _ (TraceOK.nil cnf0) hreb
             exact TraceOK.checkTrace (by simpa using this) (by simp)
-        · split
-          · simp
+        · rename_i hemp
+          split
+          · rename_i e' hbl
+            obtain ⟨bl, hbl'⟩ := backtrackLevel_ok hinv.trail.nodup hfin (by simpa using hemp)
+            rw [hbl'] at hbl; cases hbl
           · rename_i bl hbl
             have ht := (hinv.trail.backtrack bl).append_cnf [clause]
             have hu := unitPropagate_spec (nvars + 2) (s.cnf ++ [clause]) _ _ ht
